@@ -3,7 +3,7 @@ import random
 
 from vf import gen, ref, sched
 from vf.core import call, exc_desc
-from vf.lazy import ck, libx, common
+from vf.lazy import ck, libx, common, np
 
 PROP = "C20"
 TECHNIQUE = ('schedule control: every random draw of the generators is a recorded decision stream; each Markov step re-checked through the public API by prefix replay of the stream')
@@ -56,7 +56,7 @@ def gen_case(rng, ctx):
     if steps == 1000 and rng.random() < 0.7:
         steps = rng.choice([20, 30, 100])
     return {"which": which, "n": n, "m": m, "steps": steps, "complete": rng.random() < 0.5,
-            "stream_seed": rng.randrange(10 ** 9)}
+            "stream_seed": rng.randrange(10 ** 9), "argtype": rng.choice(["int"] * 8 + ["int64", "int32", "uint8"])}
 
 
 def ranking_ok(raw, n, lo, complete):
@@ -109,6 +109,16 @@ def judge_rankings(ctx, case, rankings, n, m, complete, label, lo=0, no_ties=Fal
 def check_case(case, ctx):
     common.set_case(ctx, case)
     n, m, steps, complete, which = case["n"], case["m"], case["steps"], case["complete"], case["which"]
+    # the same sizes as the integer types a caller's loop produces: numpy integers (np.arange, array items), bools for the
+    # completeness option; the model below keeps the plain values
+    argtype = case.get("argtype", "int")
+    if argtype != "int":
+        conv = {"int64": np.int64, "int32": np.int32, "uint8": np.uint8}[argtype]
+        ctx.count("calls_with_numpy_integer_sizes")
+        n_arg, m_arg, steps_arg = conv(n), conv(m), (conv(steps) if argtype != "uint8" or steps < 256 else steps)
+        complete_arg = np.bool_(complete) if case["stream_seed"] % 2 else complete
+    else:
+        n_arg, m_arg, steps_arg, complete_arg = n, m, steps, complete
     sc = ctx.scripted
     ctx.count("calls")
     ctx.count("which:" + which)
@@ -117,11 +127,11 @@ def check_case(case, ctx):
     if which in ("uniform", "uniform_dataset"):
         sc.restart(script=[], tail="random", seed=case["stream_seed"])
         if which == "uniform":
-            st, res = call(ck.Ranking.uniform_permutations, n, m)
+            st, res = call(ck.Ranking.uniform_permutations, n_arg, m_arg)
             if st == "ok":
                 judge_rankings(ctx, case, res, n, m, True, "uniform_permutations", lo=1, no_ties=True)
         else:
-            st, res = call(ck.Dataset.get_uniform_permutation_dataset, n, m)
+            st, res = call(ck.Dataset.get_uniform_permutation_dataset, n_arg, m_arg)
             if st == "ok":
                 if judge_rankings(ctx, case, res.rankings, n, m, True, "get_uniform_permutation_dataset", lo=1, no_ties=True):
                     if not res.is_complete or not res.without_ties or res.nb_rankings != m or res.nb_elements != n:
@@ -137,9 +147,9 @@ def check_case(case, ctx):
     # -- Markov generators ----------------------------------------------------------------------------
     sc.restart(script=[], tail="random", seed=case["stream_seed"])
     if which == "markov":
-        st, res = call(ck.Ranking.generate_rankings, n, m, steps, complete)
+        st, res = call(ck.Ranking.generate_rankings, n_arg, m_arg, steps_arg, complete_arg)
     else:
-        st, res = call(ck.Dataset.get_random_dataset_markov, n, m, steps, complete)
+        st, res = call(ck.Dataset.get_random_dataset_markov, n_arg, m_arg, steps_arg, complete_arg)
     log = list(sc.log)
     stream = [k for _, k in log]
     ctx.count("decisions", len(log))
@@ -205,6 +215,9 @@ def reach(counters, tier, info):
     v = counters.get("decision_count_differs_from_2_steps_m", 0)
     out.append({"name": "Markov calls whose decision count differs from 2 x steps x m", "observed": v, "required": 0,
                 "ok": v == 0})
+    v = counters.get("calls_with_numpy_integer_sizes", 0)
+    out.append({"name": "calls whose sizes are numpy integers (int64 / int32 / uint8)", "observed": v, "required": 300 * k,
+                "ok": v >= 300 * k})
     v = counters.get("calls_without_decision", 0)
     out.append({"name": "uniform calls (n >= 2) that consumed no scripted decision", "observed": v, "required": 0, "ok": v == 0})
     for opt, hi in (("incomplete", 5), ("complete", 4)):
